@@ -13,6 +13,7 @@ import (
 	"errors"
 	"fmt"
 	"io"
+	"runtime"
 	"strings"
 	"sync"
 	"testing"
@@ -250,6 +251,10 @@ func panicValue(flavour string) any {
 var caseSeq int
 
 func runCase(c *kit.Case, tc tcase) {
+	// history follow-ups (ext_engine_test.go) run on this goroutine: keep it on one OS thread so
+	// that objects a transaction put into a sync.Pool are likely handed to the next one
+	runtime.LockOSThread()
+	defer runtime.UnlockOSThread()
 	caseSeq++
 	name := fmt.Sprintf("%s-%d", c.ID, caseSeq)
 	s := &script{failStmt: -1}
@@ -396,6 +401,22 @@ func runCase(c *kit.Case, tc tcase) {
 	s.mu.Lock()
 	log := append([]string(nil), s.log...)
 	s.mu.Unlock()
+	// history: a healthy and a failing transaction on the same SqlConn (faults removed) and on a
+	// fresh one must commit / roll back whatever the case above did; judged on their own log windows
+	{
+		hw := newWorld(name)
+		from := len(log)
+		hw.importAfter = func(id int) []xev {
+			s.mu.Lock()
+			win := append([]string(nil), s.log[from:]...)
+			from = len(s.log)
+			s.mu.Unlock()
+			return oldLogEvents(win, id)
+		}
+		s.failBegin, s.failStmt, s.failCommit, s.failRollback = false, -1, false, false
+		hw.followUps(c, tc.F.Kind, []sqlx.SqlConn{sc}, false)
+		hw.close()
+	}
 	w := map[string]any{"case": tc, "driver_log": log, "returned": fmt.Sprint(ret), "body_runs": bodyRuns, "escaped_panic": fmt.Sprint(escaped)}
 	key := func(kind string) string { return "C14/" + kind + "/" + tc.F.Kind }
 
@@ -607,5 +628,6 @@ func TestVerifC14(t *testing.T) {
 		c.Sig(tc.F.Kind != "none", tc.Entry, tc.K, fmt.Sprint(tc.Query), tc.F.Kind, tc.F.At, tc.F.Pan, tc.F.Err, tc.Leak)
 		c.Sample(tc.F.Kind, 1, tc)
 	})
+	runExtFamilies(t)
 	kit.End()
 }
